@@ -862,6 +862,20 @@ class Interp:
             import operator
 
             return operator.itemgetter(*args)
+        if path == 'itertools.accumulate' and args:
+            items_ = self.iterate(args[0])
+            func_ = args[1] if len(args) > 1 else kwargs.get('func')
+            out_ = []
+            if 'initial' in kwargs and kwargs['initial'] is not None:
+                out_.append(kwargs['initial'])
+            for x_ in items_:
+                if not out_:
+                    out_.append(x_)
+                elif func_ is None:
+                    out_.append(self.external('operator.add', [out_[-1], x_], {}))
+                else:
+                    out_.append(self.call(func_, [out_[-1], x_], {}, None))
+            return out_
         if path == 'itertools.chain' and all(_concrete(a) for a in args):
             return list(itertools.chain(*args))
         if self.symbolic and path in ('jnp.asarray', 'jnp.array') and len(args) == 1 and _is_scalar_sym(args[0]):
@@ -912,6 +926,8 @@ class Interp:
     def get_attr(self, v: Any, name: str, node: ast.AST | None) -> Any:
         if v is UNK:
             return UNK
+        if isinstance(v, int) and not isinstance(v, bool) and name in ('bit_length', 'bit_count', 'conjugate', '__index__'):
+            return getattr(v, name)
         if isinstance(v, (int, float, complex)) and not isinstance(v, bool) and name in ('shape', 'ndim', 'size'):
             return {'shape': (), 'ndim': 0, 'size': 1}[name]
         if isinstance(v, (Opaque, Sym)) and self.symbolic:
@@ -1079,6 +1095,16 @@ class Interp:
             return self._setattr
         if ident == 'object':
             return Ref('builtins.object')
+        if ident == 'next':
+            def _next(it_: Any, *default: Any) -> Any:
+                items_ = self.iterate(it_)
+                if items_:
+                    return items_[0]
+                if default:
+                    return default[0]
+                raise Raised('StopIteration')
+
+            return _next
         if ident == 'vars':
             return lambda o: dict(o.attrs) if isinstance(o, Obj) else UNK
         if ident in _PURE_BUILTINS:
